@@ -26,6 +26,7 @@ import stix2
 import stix2.base
 import stix2.markings
 import stix2.markings.utils
+import stix2.properties
 import stix2.utils
 import stix2.versioning
 from stix2 import v20, v21
@@ -118,7 +119,8 @@ def state_of(obj):
             extra = sorted(k for k in g.keys() if k not in ("selectors", "marking_ref", "lang"))
             gms.append({"ref": g.get("marking_ref") or "", "lang": g.get("lang") or "",
                         "sels": list(g.get("selectors", [])), "extra": extra})
-    rest = [[k, dump(v)] for k, v in obj.items() if k not in MARKING_PROPS and k != "modified"]
+    # non-marking content; a None-valued key of a plain dict counts as absent (new_version drops it)
+    rest = [[k, dump(v)] for k, v in obj.items() if k not in MARKING_PROPS and k != "modified" and v is not None]
     rest.sort(key=lambda kv: kv[0])
     digest = hashlib.sha1(json.dumps(rest, sort_keys=True).encode()).hexdigest()[:16]
     mod = obj.get("modified")
@@ -127,7 +129,15 @@ def state_of(obj):
         mod_kind = "time"
     else:
         mod_kind = "str" if isinstance(mod, str) else ("none" if mod is None else "other")
-    return {"omr": None if omr is None else list(omr), "gms": gms,
+    mod_us = None
+    try:
+        m0 = obj.get("modified")
+        if m0 is not None:
+            d0 = m0 if isinstance(m0, dt.datetime) else stix2.utils.parse_into_datetime(m0)
+            mod_us = int((d0 - dt.datetime(1970, 1, 1, tzinfo=dt.timezone.utc)) / dt.timedelta(microseconds=1))
+    except Exception:  # noqa: BLE001
+        mod_us = None
+    return {"omr": None if omr is None else list(omr), "gms": gms, "modified_us": mod_us,
             "keys": sorted(k for k in obj.keys() if k not in MARKING_PROPS),
             "digest": digest, "modified": mod, "modified_kind": mod_kind}
 
@@ -213,7 +223,9 @@ def run_c08(obj, case):
     out = []
     for sel in case["selectors"]:
         r = {}
-        r["validate"] = outcome(lambda: stix2.markings.utils.validate(obj, [sel]))
+        # a selector is given as a str (passed as such to the functions) or as a list of str
+        sel_list = sel if isinstance(sel, list) else [sel]
+        r["validate"] = outcome(lambda: stix2.markings.utils.validate(obj, sel_list))
         fns = {
             "get": (lambda: M.get_markings(obj, sel), lambda: obj.get_markings(sel)),
             "is_marked": (lambda: M.is_marked(obj, None, sel), lambda: obj.is_marked(None, sel)),
@@ -230,7 +242,7 @@ def run_c08(obj, case):
                     a = "fn=%s/method=%s" % (a, b)
             r[name] = a
         if is_obj:
-            gm = {"selectors": [sel], "marking_ref": red}
+            gm = {"selectors": sel_list, "marking_ref": red}
             r["ctor"] = outcome(lambda: build(case["build"], gm))
             # the other construction route must agree
             other = dict(case["build"])
@@ -253,6 +265,20 @@ def main():
             continue
         case = json.loads(line)
         res = {}
+        if case.get("kind") == "syntax":
+            # SelectorProperty.clean on each string: does the selector syntax admit it?
+            prop = stix2.properties.SelectorProperty()
+            out = []
+            for s in case["strings"]:
+                try:
+                    prop.clean(s)
+                    out.append(True)
+                except ValueError:
+                    out.append(False)
+                except Exception as e:  # noqa: BLE001
+                    out.append("Other:" + type(e).__name__)
+            print(json.dumps({"syntax": out}))
+            continue
         try:
             obj = build(case["build"])
         except Exception as e:  # noqa: BLE001
